@@ -138,6 +138,10 @@ def check_objective_values(kind, parallel, via):
             r = [0.0]
         elif kind == "nonfinite":
             r = [[float("inf"), float("nan"), float("-inf"), 1.5][(vecs.index(v) if v in vecs else 3) % 4]]
+        elif kind == "warns":
+            import warnings
+            warnings.warn("overflow encountered in the objective", RuntimeWarning)     # a warning is not a failure
+            r = [base]
         elif kind == "surplus":
             r = [base, 123.456]            # an auxiliary output after the declared objective
         else:
@@ -464,7 +468,7 @@ def _shard(shard, col: Collector):
                     [(k, m[:400]) for k, m in check_batch(n, mix, 1, "minimize", parallel, False, bool(pat))], True)
         col.sample({"kind": "batch", "n": 3, "already_evaluated": [False, True, False], "repeats": 2, "parallel": parallel}, 1)
     elif kind == "objvalues":
-        for kind_ in ("list", "ndarray", "tuple", "npscalar-list", "zero-list", "nonfinite", "surplus", "near"):
+        for kind_ in ("list", "ndarray", "tuple", "npscalar-list", "zero-list", "nonfinite", "surplus", "near", "warns"):
             for parallel in (False, True):
                 for via in ("batch", "sweep"):
                     rec("objvalues", {"kind": kind_, "parallel": parallel, "via": via}, check_objective_values(kind_, parallel, via), True)
